@@ -133,6 +133,11 @@ def run(repo: Repo, chk: Check, thorough: bool = False) -> None:
             g = next((h_ for h_ in repo.funcs.values() if h_.cls is wf.cls and h_ is not wf and h_.name == call_name(c) and h_.name.startswith('_')), None)
             if g is None or dotted(c.func) != f'self.{g.name}':
                 continue
+            # ... or of a helper that walks the children with this walker itself (`self._walkabout_children(ob)`)
+            for n in g.walk():
+                if isinstance(n, ast.For) and any(call_name(c2) == wname_ and dotted(c2.func) == f'self.{wname_}' for st in n.body for c2 in ast.walk(st) if isinstance(c2, ast.Call)):
+                    st_c = cw_.stmt_of(c)
+                    out.append((st_c, _exc_flow(g, n, 'SkipSiblings', repo) is not None or _exc_flow(wf, st_c, 'SkipSiblings', repo) is not None))
             gpar = [p_.arg for p_ in g.params() if p_.arg != 'self']
             for i_, a_ in enumerate(c.args):
                 if dotted(a_) == f'self.{wname_}' and i_ < len(gpar):
@@ -303,6 +308,13 @@ def run(repo: Repo, chk: Check, thorough: bool = False) -> None:
                               any(isinstance(x, ast.Call) and call_name(x) == meth for st in n.body for x in ast.walk(st)) for n in g.walk()):
                     lists = _lists_of(f, c.args[0])
                     loops.append((cf.stmt_of(c), lists))
+        # ... or through a method of the extension list itself: `self.extensions.visit_leading(ob)` with the loop in ExtList
+        for c in calls_in(f):
+            if isinstance(c.func, ast.Attribute) and dotted(c.func.value) == 'self.extensions':
+                for g in [g_ for g_ in repo.funcs.values() if g_.cls is not None and g_.cls.qn == 'pydoctor.visitor.ExtList' and g_.name == c.func.attr]:
+                    for n in g.walk():
+                        if isinstance(n, ast.For) and any(isinstance(x, ast.Call) and call_name(x) == meth for st in n.body for x in ast.walk(st)):
+                            loops.append((cf.stmt_of(c), _lists_of(g, n.iter)))
         exp_before, exp_after = EXPECTED_ORDER[meth]
         before = [(n, l) for n, l in loops if cf.dominates(n, mstmt, no_exc=True) and n is not mstmt]
         after = [(n, l) for n, l in loops if (n, l) not in before]
